@@ -71,7 +71,7 @@ def pinned_cases(thorough):
     """Hand-pinned regressions and threshold crossings (every field explicit: no seed dependence).
     Each entry: (name, case)."""
     lay0 = {"seed": 1, "frag": 0, "commit_every": 0, "flush_den": 0}
-    frag = {"seed": 3, "frag": 2, "commit_every": 1, "flush_den": 0}
+    frag = {"seed": 3, "frag": 0, "commit_every": 1, "flush_den": 0, "batch_max": 1}
     out = []
 
     def case(name, par, A, B, stretch, pattern, bufs, layA=lay0, layB=lay0, pingpong=False):
@@ -105,8 +105,8 @@ def pinned_cases(thorough):
 
 def known_cases(thorough):
     """The classes of DESIGN 7.6 (known findings) and their narrower neighbours that must pass."""
-    lay0 = {"seed": 1, "frag": 0, "commit_every": 0, "flush_den": 0}
-    frag = {"seed": 3, "frag": 2, "commit_every": 1, "flush_den": 0}
+    lay0 = {"seed": 1, "frag": 0, "commit_every": 0, "flush_den": 0, "node_cut": True}
+    frag = {"seed": 3, "frag": 0, "commit_every": 1, "flush_den": 0, "batch_max": 1, "node_cut": True}
     out = []
     ch = lambda k: {"kind": "chain", "k": k}
     fan = lambda k: {"kind": "fan", "k": k}
@@ -119,6 +119,17 @@ def known_cases(thorough):
     div = [[], [1], [2], [2]]          # 1 init, 2 shared chain, 3 A's own chain, 4 B's own chain
     case("known-b-unknown-sample", div, [1, 2, 3], [1, 2, 4], [ch(1), ch(150), ch(110), ch(5)], "T", layA=frag, layB=frag)
     case("narrow-b-own-60", div, [1, 2, 3], [1, 2, 4], [ch(1), ch(150), ch(60), ch(5)], "T", layA=frag, layB=frag)
+    # (c) one-response sessions: the requester's segment straddles shared and own commands, the
+    # responder re-sends the >= 100 shared commands of it before anything new
+    one = {"seed": 1, "frag": 0, "commit_every": 0, "flush_den": 0, "batch_max": 0}
+    case("known-c-oneshot-straddle", div, [1, 2, 3], [1, 2, 4], [ch(1), ch(150), ch(5), ch(5)], "T", layA=one, layB=lay0)
+    case("narrow-c-straddle-R", div, [1, 2, 3], [1, 2, 4], [ch(1), ch(150), ch(5), ch(5)], "R", layA=one, layB=lay0)
+    case("narrow-c-straddle-60", div, [1, 2, 3], [1, 2, 4], [ch(1), ch(60), ch(5), ch(5)], "T", layA=one, layB=lay0)
+    # (e) coverage through a mid-segment prior is dropped (find_needed_segments / push_covered)
+    mid = [[], [1], [1]]      # responder: segment [init chain, node 2] then [node 3] whose prior points into the middle
+    case("known-e-midsegment-prior", mid, [1, 3], [1, 2, 3], [ch(101), ch(1), ch(1)], "T", layA=one, layB=one)
+    case("narrow-e-midsegment-prior-R", mid, [1, 3], [1, 2, 3], [ch(101), ch(1), ch(1)], "R", layA=one, layB=one)
+    case("narrow-e-midsegment-prior-60", mid, [1, 3], [1, 2, 3], [ch(60), ch(1), ch(1)], "T", layA=one, layB=one)
     if thorough:
         # (a) requester with more heads than the sample limit: livelock
         case("known-a-star-300", star, [1, 2], [1, 2, 3], [ch(1), fan(300), ch(1)], "R")
@@ -154,6 +165,46 @@ def _corruptions(lines, base_case, first_id):
             e["case"] = first_id + n
         out.append((what, mut))
     return out
+
+
+def build_cases(ctx, pairs, pingpong=None):
+    cases = []
+    pinned = pinned_cases(ctx.thorough)
+    for name, c in pinned:
+        cases.append(c)
+    if ctx.thorough:
+        sel = pairs
+    else:
+        sel = verif.sample(ctx.rng, pairs, 240)
+    for k, p in enumerate(sel):
+        prof = "small"
+        big = None
+        r = ctx.rng.random()
+        if ctx.thorough and r < 0.06:
+            big = (ctx.rng.randrange(1, len(p["par"]) + 1), ctx.rng.choice(["chain", "chain", "fan"]), ctx.rng.choice([101, 130, 220, 300]))
+        elif r < (0.20 if ctx.thorough else 0.10):
+            big = (ctx.rng.randrange(1, len(p["par"]) + 1), ctx.rng.choice(["chain", "chain", "fan"]), ctx.rng.choice([30, 60, 101, 120]))
+        elif r < 0.4:
+            prof = "mixed"
+        pp = None if pingpong is None else (ctx.rng.random() < pingpong)
+        cases.append(session_case(ctx.rng, p, prof, big_node=big, pingpong=pp))
+    return cases, len(pinned)
+
+
+def spec_runs(ctx):
+    """Design level.  quick: property level on shapes <= 3, implementation shaped on <= 4, pairs <= 4;
+    thorough: property level <= 4, implementation shaped <= 5 (both session styles), pairs <= 5."""
+    r = ctx.tlc("SyncAbs", "MC_SyncAbs.cfg" if ctx.thorough else "MC_SyncAbs_q.cfg", timeout=1500)
+    ctx.require_actions(r, ["ASample", "ARespond", "AEnd", "ACommit"])
+    ri = ctx.tlc("SyncAbs", "MC_SyncAbs_impl.cfg" if ctx.thorough else "MC_SyncAbs_impl_q.cfg", timeout=1500)
+    ctx.require_actions(ri, ["ISample", "IRespond", "IEnd", "ICommit"])
+    if ctx.thorough:
+        ctx.tlc("SyncAbs", "MC_SyncAbs_impl1.cfg", timeout=1500)
+    rp = ctx.tlc("SyncAbs", "MC_SyncAbs_pairs5.cfg" if ctx.thorough else "MC_SyncAbs_pairs4.cfg", timeout=1500, coverage=False)
+    pairs = rp.replays
+    if not pairs:
+        raise verif.ToolError("TLC emitted no pairs")
+    return pairs
 
 
 def run_sessions(ctx, vh, cases, tag="session", selftest_case=None):
